@@ -50,7 +50,15 @@ type stressRound struct {
 	Yields  []int  `json:"yields"` // scheduler yields of each stopper between the barrier and Stop
 	Pool    int    `json:"pool_conns"`
 	Clients int    `json:"clients"`
+	// optional features of the configuration (drawn on/off; values of the shipped sample file)
+	Rate    bool `json:"rate_limit,omitempty"`
+	Breaker bool `json:"circuit_breaker,omitempty"`
+	Passive bool `json:"passive_checks,omitempty"`
 }
+
+// stressRateRounds: rate limiting is drawn only in the first rounds of every worker - each limiter
+// leaves its janitor goroutine behind, which bounds what a long batch accumulates.
+const stressRateRounds = 1024
 
 func splitmix(x uint64) uint64 {
 	x += 0x9e3779b97f4a7c15
@@ -73,6 +81,9 @@ func roundOf(seed uint64, w, r int) stressRound {
 	if next(3) == 0 {
 		c.Clients = 1
 	}
+	c.Breaker = next(2) == 0
+	c.Passive = next(2) == 0
+	c.Rate = next(3) == 0 && r < stressRateRounds
 	return c
 }
 
@@ -81,10 +92,13 @@ func TestC19StopRaceStress(t *testing.T) {
 		stressChild(t)
 		return
 	}
-	sub := lab.Sub(stressName, "real threads, child process: W=2xCPU (max 32) workers x rounds; each round builds a real balancer (1/2/3/4/8/16 backends, active checks interval 2 s timeout 1 s, probes all-200 / all-held / mixed, optional websocket pool with 1-3 idle connections, optional client request parked in a backend) "+
+	sub := lab.Sub(stressName, "real threads, child process: W=2xCPU (max 32) workers x rounds; each round builds a real balancer (1/2/3/4/8/16 backends, active checks interval 2 s timeout 1 s, probes all-200 / all-held / mixed, optional websocket pool with 1-3 idle connections, optional client request parked in a backend, circuit breaker / passive checks on or off by draw, rate limiting on in a third of the first 1024 rounds of every worker) "+
 		"and calls Stop from 1-3 goroutines released by a spin barrier 0-20 scheduler yields after construction, i.e. while the checker goroutine launches its first probe round (the same code as a tick round); oracle: the process does not crash, no Stop panics, every Stop returns (20 s watchdog), "+
 		"pooled idle connections are closed at the first return, no probe round-trip starts after the first return (checked at the end of the round and again 2.2 s = one interval later for the last balancers), parked client requests complete when released; every round is non-trivial (stop within microseconds of probe round 0); schedules are sampled, not enumerated")
 	sub.NontrivialFloor(0.99)
+	sub.Floor("several-stops,on=rate_limit", 0.01)
+	sub.Floor("several-stops,on=circuit_breaker", 0.20)
+	sub.Floor("several-stops,on=passive_checks", 0.20)
 	lab.Assume("stress: interleavings are sampled by real parallelism (probabilistic); the probe round launched at construction stands in for a tick round (same function)")
 	var b stressBatch
 	if lab.Replaying() {
@@ -133,6 +147,17 @@ func TestC19StopRaceStress(t *testing.T) {
 			}
 			if c.Clients > 0 {
 				labels = append(labels, "client-in-flight")
+			}
+			for _, f := range []struct {
+				on   bool
+				name string
+			}{{c.Rate, "rate_limit"}, {c.Breaker, "circuit_breaker"}, {c.Passive, "passive_checks"}} {
+				if f.on {
+					labels = append(labels, "on="+f.name)
+					if c.Stops > 1 {
+						labels = append(labels, "several-stops,on="+f.name)
+					}
+				}
 			}
 			sub.Case(c, true, labels...)
 		}
@@ -293,6 +318,15 @@ func stressOne(fn *lab.FakeNet, w int, c stressRound) (sample int, viol string) 
 		cfg.LoadBalancer.WebSocketPool.MaxIdle = 4
 		cfg.LoadBalancer.WebSocketPool.MaxActive = 100
 		cfg.LoadBalancer.WebSocketPool.IdleTimeoutSeconds = 3600
+	}
+	if c.Rate {
+		cfg.RateLimit.Enabled, cfg.RateLimit.MaxTokens, cfg.RateLimit.RefillRate = true, 100, 1
+	}
+	if c.Breaker {
+		cfg.CircuitBreaker = config.CircuitBreakerConfig{Enabled: true, MaxRequests: 5, IntervalSeconds: 60, TimeoutSeconds: 60, FailureThreshold: 5, SuccessThreshold: 2}
+	}
+	if c.Passive {
+		cfg.HealthChecks.Passive.Enabled, cfg.HealthChecks.Passive.UnhealthyThreshold, cfg.HealthChecks.Passive.UnhealthyTimeout = true, 3, 30
 	}
 	if err := cfg.Validate(); err != nil {
 		return 0, "harness: config rejected: " + err.Error()
